@@ -16,6 +16,10 @@ CLAIMS = {
    text="Generic theorem run_stab, proved once over the deep-embedded grammar for ANY grammar without complete-mode nom primitives, any actions, any fuel and loop bounds: accept (same value, same consumed length), Error and Failure verdicts are unchanged when arbitrary bytes are appended. Instantiated on the grammar that rs2coq regenerates from /repo on every run (140 parser functions): reflection obligation streaming_only = true by vm_compute, c02_verdicts_final for all buffers B and continuations X, and the corollary that every proper prefix of an accepted response is neither accepted nor rejected. The model is tied to the code by the translator (the use-lists decide streaming vs complete per module) and by comparing model and implementation results (verdict, consumed length, full value) on generated responses, all their prefixes, mutated/spliced buffers; violations are searched on the implementation alone.",
    note=TB + "rs2coq (unverified translator) in the trusted base. Modelled, not verified: nom 7.1.3 primitives/combinators (Nom.v, Interp.v), the hand models of number/literal/entry_name and of the irregular closures (Natives.v). RPanic/RFuel outcomes are excluded by C01's theorems, not here.",
    technique="Coq generic metatheorem over a deep-embedded grammar + vm_compute reflection on the regenerated grammar + extraction-based differential", ref="3 C02"),
+ "C09": dict(
+   text="Generic theorem (Thm_Crlf.v) proved once over the deep-embedded grammar: for any grammar in which no class, tag or char admits CR except the terminating CRLF of the top rules and the CRLF inside `literal`, no parser answers Incomplete on a buffer that holds a lexically complete frame under the property's own framing rule (`safe`: scan to CRLF; a line ending in {n} skips n bytes and continues -- an inductive predicate independent of the grammar). The literal leaf is the one place where the framer's {n} and the parser's number must agree; that is proved (literal_good). Instantiated on the grammar regenerated from /repo: reflection obligation c09_crlf_discipline by vm_compute, then c09_no_incomplete_on_complete_line for all buffers. Tie: translator + model/implementation correspondence; violations are searched on the implementation alone with an independent framer.",
+   note=TB + "rs2coq in the trusted base. Modelled, not verified: nom primitives/combinators, natives. The clause 'an accepted response without literals ends exactly at the first CRLF' is enforced by the implementation-side oracle on every run but is not yet a pinned theorem (partial). The codec path (a complete line through ImapCodec/Framed) belongs to C04.",
+   technique="Coq generic metatheorem (CRLF discipline) + vm_compute reflection on the regenerated grammar + differential with an independent lexical framer", ref="3 C09"),
  "C10": dict(
    text="Theorems over a hand model of quoted_string (the imperative loop with start/new/slices and the borrowed fast path) and of the text-taking builders (Builders.v), for ALL byte strings of any length: the loop computes exactly `escape` (refinement); refusal iff the text contains CR or LF; the output contains no CR/LF; an independent quoted-string lexer reads back exactly the text given and stops at the closing quote; whole commands lex to verb + the given arguments (hence injectivity); UTF-8 validity is preserved so the inner unwrap cannot fail; the encoded request is one line ending in the only CRLF. Tied to the code by exhaustive comparison on all ASCII strings of length <= 2 (quick) / 3 (thorough) in each of the 6 argument slots plus random Unicode strings, including the bytes the real client writes.",
    note=TB + "Modelled, not verified: Rust's String::from_utf8 (RFC 3629 automaton in Bytes.v), format!. Arguments are &str (valid UTF-8); the theorems cover all byte strings and show the panic branch unreachable for valid UTF-8.",
